@@ -333,6 +333,126 @@ def case_condensed_state(kind, fam, rep):
     return fn
 
 
+def own_condensed_residual(reg, mesh, u, um, bulk, kind, ngeo=None):
+    """Oracle-side residual of the condensed nearly-incompressible body at displacement values u (settled state: J = v / V per cell,
+    p = K (J - 1)): r = sum_q (P_iso(F) + p det F F^-T) : grad N w with the oracle's own F (hoop stretch 1 + u_r / R), own R (geometry
+    functions only) and own weights (2 pi R dA). Returns r, J, p."""
+    cells, d = mesh.cells, mesh.dim
+    n, q, c = reg.h.shape[0], reg.dV.shape[0], mesh.ncells
+    ngeo = ngeo or n
+    h = np.broadcast_to(reg.h, (n, q, c))
+    dh = np.broadcast_to(reg.dhdX, (n, d, q, c))
+    w = np.broadcast_to(reg.dV, (q, c)).copy()
+    F = np.zeros((3, 3, q, c))
+    F[:d, :d] = np.einsum("cai,ajqc->ijqc", u[cells], dh)
+    F[[0, 1, 2], [0, 1, 2]] += 1
+    R = None
+    if kind == "axisymmetric":
+        R = np.einsum("ca,aqc->qc", mesh.points[:, 1][cells[:, :ngeo]], h[:ngeo])
+        F[2, 2] = 1 + np.einsum("ca,aqc->qc", u[:, 1][cells], h) / R
+        w *= 2 * np.pi * R
+    Ft = F.transpose(2, 3, 0, 1)
+    detF = np.linalg.det(Ft)
+    J = (detF * w).sum(0) / w.sum(0)
+    p = bulk * (J - 1)
+    P = um.gradient([F, None])[0] + p * detF * np.linalg.inv(Ft).transpose(3, 2, 0, 1)
+    con = np.einsum("ijqc,ajqc,qc->cai", P[:d, :d], dh, w)
+    if kind == "axisymmetric":
+        con[:, :, 1] += np.einsum("qc,aqc,qc->ca", P[2, 2] / R, h, w)
+    r = np.zeros_like(u, dtype=float)
+    np.add.at(r, cells, con)
+    return r, J, p
+
+
+CONDENSED_OWN = [(fam, kind) for fam in ("quad", "quad8", "quad9", "triangle", "triangle6", "triangleMINI") for kind in ("planestrain", "axisymmetric")] + \
+                [(fam, "3d") for fam in ("hexahedron", "hexahedron20", "hexahedron27", "tetra", "tetra10", "tetraMINI")] + \
+                [("quad", "axisymmetric:axis"), ("triangleMINI", "axisymmetric:axis"), ("quad8", "axisymmetric:axis")]
+
+
+def case_condensed_own(fam, kind, rep):
+    """The condensed body against the oracle's own residual on every element family, in several (length, stiffness) units, on bodies that
+    touch the axis - at a settled state (exact), and ONE evaluation away from it, where the linearised update of J and the constraint term of
+    the residual do not vanish (third audit: the solve-level clauses look at them only where they are zero)."""
+    def fn(run):
+        import felupe as fem
+        rng = rng_for(run.seed, "C10", "condensed-own", fam, kind, rep)
+        L_unit, mu_unit = [(1.0, 1.0), (1e-3, 1e6), (3e-6, 1e6), (250.0, 1e9), (1e3, 1e-3)][(rep + CONDENSED_OWN.index((fam, kind))) % 5]
+        base_kind = kind.split(":")[0]
+        if kind.endswith(":axis"):
+            Rmax = 1.0
+            b0 = fem.Rectangle(a=(0.0, 0.0), b=(1.3, 1.0), n=(3, 7))
+            pts = b0.points.copy()
+            pts[:, 1] = pts[:, 1] ** [4, 3][rep % 2]
+            mesh = gen.FAMILIES[fam]["conv"](fem.Mesh(pts, b0.cells, b0.cell_type))
+            X = mesh.points
+            a = rng.uniform(-1, 1, (2, 3))
+            u = np.stack([0.1 * (a[0, 0] * X[:, 0] + a[0, 1] * X[:, 1] + a[0, 2] * X[:, 0] * X[:, 1]), 0.12 * X[:, 1] * (a[1, 0] + a[1, 1] * X[:, 0] + a[1, 2] * X[:, 1])], 1)
+        else:
+            mesh, _ = problems.box_mesh(fam, rng)
+            if base_kind == "axisymmetric":
+                mesh = mesh.copy(points=mesh.points + np.array([0.0, float(rng.uniform(0.2, 1.0))]))
+            u = gen.random_displacement(rng, mesh, grad=0.15)
+        mesh = fem.Mesh(mesh.points * L_unit, mesh.cells, mesh.cell_type)
+        u = u * L_unit
+        mu, bulk = float(rng.uniform(0.5, 2)) * mu_unit, float(10 ** rng.uniform(1, 3.5)) * mu_unit
+        ngeo = {"triangleMINI": 3, "tetraMINI": 4}.get(fam)
+        reg = gen.make_region(fam, mesh)
+        FLD = {"3d": fem.Field, "planestrain": fem.FieldPlaneStrain, "axisymmetric": fem.FieldAxisymmetric}[base_kind]
+
+        def body(values):
+            f = fem.FieldContainer([FLD(reg, dim=mesh.dim)])
+            f[0].values[:] = values
+            return f, fem.SolidBodyNearlyIncompressible(fem.NeoHooke(mu=mu), f, bulk=bulk)
+        f, sb = body(u)
+        sb.assemble.vector(f)
+        r = sb.assemble.vector(f).toarray().reshape(u.shape)  # second evaluation at the same state: settled
+        own, J, p = own_condensed_residual(reg, mesh, u, sb.umat, bulk, base_kind, ngeo)
+        tag = "family=%s kind=%s" % (fam, kind)
+        sc = max(maxabs(own), 1e-300)
+        cfg = (fam, kind, (rep + CONDENSED_OWN.index((fam, kind))) % 5)
+        run.compare("reduced.condensed", tag + " clause=settled-force-is-own-residual", maxabs(r - own) / sc, 1e-10,
+                    "condensed body (%s, %s, length unit %g, modulus unit %g): nodal forces at a settled state are not the virtual work of P_iso + K (v/V - 1) dJ/dF" % (fam, kind, L_unit, mu_unit),
+                    unit="condensed:own:settled:" + fam, config=cfg + ("force",), sample={"family": fam, "kind": kind, "length_unit": L_unit, "modulus_unit": mu_unit})
+        run.compare("reduced.condensed", tag + " clause=settled-volume-ratio", maxabs(sb.results.state.J - J), 1e-10,
+                    "condensed body (%s, %s): stored volume ratio at a settled state is not current / undeformed cell volume (own F, R, weights)" % (fam, kind),
+                    unit="condensed:own:settled:" + fam, config=cfg + ("J",))
+        run.compare("reduced.condensed", tag + " clause=settled-pressure", maxabs(sb.results.state.p - p) / bulk, 1e-10,
+                    "condensed body (%s, %s): stored pressure at a settled state is not K (J - 1)" % (fam, kind), unit="condensed:own:settled:" + fam, config=cfg + ("p",))
+        run.units["condensed:own:unit:%g" % L_unit] += 1
+        if kind.endswith(":axis"):
+            run.units["condensed:own:touches-axis"] += 1
+        # one evaluation away from the settled state (what every Newton iteration but the last does)
+        hloc = float(np.min(mesh.points[mesh.cells].max(1) - mesh.points[mesh.cells].min(1)))
+        d = 0.04 * hloc * rng.uniform(-1, 1, u.shape)
+        if base_kind == "axisymmetric":
+            d[:, 1] *= (mesh.points[:, 1] > 0)
+        errs = []
+        for t in (1.0, 0.5, 0.25):
+            f, sb = body(u)
+            sb.assemble.vector(f)
+            sb.assemble.vector(f)
+            g = f.copy()
+            g[0].values[:] = u + t * d
+            r1 = sb.assemble.vector(g).toarray().reshape(u.shape)  # ONE evaluation at the new state
+            own_t, Jt, pt = own_condensed_residual(reg, mesh, u + t * d, sb.umat, bulk, base_kind, ngeo)
+            errs.append(maxabs(sb.results.state.J - Jt))
+            if t == 1.0:
+                run.compare("reduced.condensed", tag + " clause=unsettled-force-is-own-residual", maxabs(r1 - own_t) / max(maxabs(own_t), 1e-300), 1e-9,
+                            "condensed body (%s, %s): the nodal forces of ONE evaluation at a new state (settled before at a neighbouring one) are not the own residual with "
+                            "the constraint pressure K (v/V - 1) of the new state" % (fam, kind), unit="condensed:own:unsettled-force:" + base_kind, config=cfg + ("unsettled",))
+        # the stored J after that one evaluation is the linearisation (h : du + v) / V: its distance to v/V of the new state is second order
+        if errs[2] > 1e-13 and errs[0] > 1e-11:
+            ratios = (errs[0] / max(errs[1], 1e-300), errs[1] / max(errs[2], 1e-300))
+            if 3.0 < ratios[0] < 5.5 and 3.0 < ratios[1] < 5.5:
+                run.ok("reduced.condensed", unit="condensed:own:linearised-J-second-order", config=cfg + ("order",), sample={"errors": errs})
+            else:
+                run.fail("reduced.condensed", tag + " clause=linearised-volume-ratio-second-order", "condensed body (%s, %s): the volume ratio stored after one evaluation at "
+                         "u + t d differs from v/V by %s for t = 1, 1/2, 1/4 (a consistent linearisation gives ratios of 4)" % (fam, kind, ["%.2e" % e for e in errs]), {"errors": errs})
+        else:
+            run.skip("reduced.condensed", "linearisation error of J below round-off for this draw")
+    return fn
+
+
 def case_condensed(kind, fam, rep):
     def fn(run):
         import felupe as fem
@@ -358,13 +478,22 @@ def case_condensed(kind, fam, rep):
             else:
                 s3 = fem.SolidBody(fem.NearlyIncompressible(mk_iso(), bulk=bulk), f3)
             run.units["condensed:variant:" + variant] += 1
+            label = "%s/%s bulk=%.3g" % (kind, fam, bulk)
             try:
-                r1 = fem.newtonrhapson(items=[s1], verbose=False, tol=1e-11, **l1)
                 r3 = fem.newtonrhapson(items=[s3], verbose=False, tol=1e-11, **l3)
             except ValueError as exc:
-                run.skip("reduced.condensed", "Newton did not converge: " + str(exc).strip()[:40])
+                run.skip("reduced.condensed", "the explicit three-field form did not converge: " + str(exc).strip()[:40])
                 return
-            label = "%s/%s bulk=%.3g" % (kind, fam, bulk)
+            try:
+                r1 = fem.newtonrhapson(items=[s1], verbose=False, tol=1e-11, **l1)
+            except ValueError as exc:
+                # same mesh, law, load and start: the condensed form is the same Newton iteration with p, J eliminated
+                run.fail("reduced.condensed", "kind=%s clause=condensed-converges-where-explicit-does" % kind,
+                         "%s: the explicit three-field form converges in %d iterations, the condensed body does not (%s)" % (label, r3.iterations, str(exc).strip()[:40]))
+                return
+            run.compare("reduced.condensed", "kind=%s clause=iterations" % kind, float(max(0, int(r1.iterations) - int(r3.iterations) - 2)), 0.0,
+                        "%s: the condensed body needs %d Newton iterations, the explicit three-field form %d (a consistent condensation converges like the "
+                        "explicit form)" % (label, r1.iterations, r3.iterations), unit="condensed:iterations:" + kind, config=(kind, fam, "iterations"))
             us = max(maxabs(r3.x[0].values), 1e-300)
             run.compare("reduced.condensed", "kind=%s clause=displacement" % kind, maxabs(r1.x[0].values - r3.x[0].values) / us, 1e-7,
                         "%s: condensed nearly-incompressible body and explicit three-field form converge to different displacements" % label,
@@ -481,6 +610,9 @@ def cases(tier, seed):
     for kind, fam in (("3d", "hexahedron"), ("planestrain", "quad"), ("axisymmetric", "quad")):
         for rep in range(2 if tier == "quick" else 8):
             out.append(("condensed-state:%s:%s:%d" % (kind, fam, rep), case_condensed_state(kind, fam, rep)))
+    for fam, kind in CONDENSED_OWN:
+        for rep in range(1 if tier == "quick" else 5):
+            out.append(("condensed-own:%s:%s:%d" % (fam, kind, rep + seed % 5), case_condensed_own(fam, kind, rep + seed % 5)))
     for fam in ("quad", "hexahedron", "quad9", "hexahedron20"):
         for rep in range(reps):
             out.append(("uniform:%s:%d" % (fam, rep), case_uniform(fam, rep)))
@@ -490,7 +622,7 @@ def cases(tier, seed):
 SPEC = {
     "required_units": ["planestrain:force:quad", "planestrain:force:quad8", "planestrain:force:quad9", "planestrain:stiffness:quad",
                        "planestrain:stiffness:quad8", "planestrain:stiffness:quad9", "axisymmetric:energy:quad", "axisymmetric:energy:quad8",
-                       "axisymmetric:energy:triangle", "axisymmetric:energy:triangleMINI", "axisymmetric:axis:quad", "axisymmetric:axis:quad8", "axisymmetric:axis:triangle", "axisymmetric:axis:triangleMINI", "axisymmetric:virtual-work:quad", "axisymmetric:virtual-work:triangle6", "axisymmetric:revolve-convergence", "axisymmetric:revolve-extrapolated", "planestrain:mixed:force", "planestrain:mixed:stiffness", "condensed:state-force:3d", "condensed:state-force:planestrain", "condensed:state-force:axisymmetric", "condensed:u:3d", "condensed:u:planestrain",
+                       "axisymmetric:energy:triangle", "axisymmetric:energy:triangleMINI", "axisymmetric:axis:quad", "axisymmetric:axis:quad8", "axisymmetric:axis:triangle", "axisymmetric:axis:triangleMINI", "axisymmetric:virtual-work:quad", "axisymmetric:virtual-work:triangle6", "axisymmetric:revolve-convergence", "axisymmetric:revolve-extrapolated", "planestrain:mixed:force", "planestrain:mixed:stiffness", "condensed:own:settled:quad9", "condensed:own:settled:triangleMINI", "condensed:own:settled:tetra10", "condensed:own:settled:hexahedron27", "condensed:own:unsettled-force:3d", "condensed:own:unsettled-force:planestrain", "condensed:own:unsettled-force:axisymmetric", "condensed:own:linearised-J-second-order", "condensed:own:touches-axis", "condensed:own:unit:3e-06", "condensed:own:unit:250", "condensed:iterations:3d", "condensed:state-force:3d", "condensed:state-force:planestrain", "condensed:state-force:axisymmetric", "condensed:u:3d", "condensed:u:planestrain",
                        "condensed:u:axisymmetric", "condensed:p:3d", "condensed:J:3d", "condensed:bulk:1", "condensed:bulk:2", "condensed:bulk:3", "condensed:state:3d", "condensed:restart:3d", "condensed:restart:axisymmetric",
                        "planestrain:parallel", "condensed:variant:NeoHooke|ThreeFieldVariation", "condensed:variant:tt.yeoh|NearlyIncompressible",
                        "uniform:vector", "uniform:matrix", "uniform:vector:axisymmetric", "uniform:matrix:axisymmetric", "uniform:constant:linear-elastic-matrix", "uniform:constant:mass", "uniform:constant:body-force"],
